@@ -227,6 +227,7 @@ def check_c12(tier):
     V.assumptions = ['buffers handed to load() were produced by save() of the same machine type', 'load() only sees the buffer: (saver state, loader state) pairs are covered as every saver state x canonical buffer and every loader state x every buffer']
     O = O_T | og('MANUAL', 'SERIAL', 'PAYLOAD', 'REPLAY', 'COPY')
     specs = [S('T2s', 2, M_T, O), S('T2a', 2, M_T, O), S('T3s', 1, M_TP, O), S('A2', 1, mf('PHASE_REQ', 'GUARD_CANCEL', 'REPORT', 'PLAN_EDIT', 'PAYLOAD'), og('CORE', 'PLAN', 'REPORT', 'MANUAL', 'SERIAL', 'REPLAY', 'COPY', 'DESTROY', 'PAYLOAD', 'LOG')), S('A1', 0, mf('PHASE_REQ', 'GUARD_CANCEL', 'REPORT', 'PLAN_EDIT', 'PAYLOAD'), og('CORE', 'PLAN', 'REPORT', 'MANUAL', 'SERIAL', 'REPLAY', 'COPY', 'DESTROY', 'PAYLOAD', 'LOG'))]
+    specs += [S('P5h', 1, mf('PHASE_REQ', 'REPORT', 'PLAN_EDIT', 'LIFE_EDIT'), og('CORE', 'PLAN', 'SERIAL')), S('P6m', 1, mf('PHASE_REQ', 'PLAN_EDIT', 'LIFE_EDIT'), og('CORE', 'PLAN', 'SERIAL', 'MANUAL'))]    # callbacks that plan while load() runs
     combos = SER_COMBOS[:8] if tier == 'quick' else SER_COMBOS
     for i, c in enumerate(combos):
         name = 'T2x%d' % i
